@@ -13,4 +13,13 @@ def extra_seeds():
         for r in recs:
             if len(r) <= 600 and r not in lst:
                 lst.append(bytes(r))
+    # BER spellings of the LDAP frames (the corpus and the composer only know DER): long-form lengths, and the
+    # indefinite form on the constructed elements
+    from mc.ref import misc_ref as ref
+    req = _CACHE.setdefault('cryptoparser.tls.ldap.LDAPExtendedRequestStartTLS', [])
+    resp = _CACHE.setdefault('cryptoparser.tls.ldap.LDAPExtendedResponseStartTLS', [])
+    for forms in ({'msg': 4}, {'msg': 1, 'op': 4}, {'msg': -1}, {'op': -1}, {'msg': -1, 'op': -1}, {'msg': 4, 'op': -1}):
+        for lst, b in ((req, ref.ldap_starttls_request(1, forms)), (resp, ref.ldap_starttls_response(0, 1, b'', b'', forms))):
+            if b not in lst:
+                lst.append(b)
     return _CACHE
